@@ -3616,3 +3616,25 @@ mutant('C19-mask-file-appended-not-created', 'C19',
          "    with h5py.File(output_path, 'a') as out_file:\n"
          "        out_file.create_dataset(\n            'gene_names',\n")],
        'R-FRESH/output-created-afresh', 'PValueRunner')
+
+mutant('C11-F9-zero-chunk-extent-returns', 'C11',
+       'gene index table chunked by a count that can be zero (F9)',
+       [(_MK, "        if n_up_indices > 0:\n"
+         "            up_chunks = (min(1000000, n_up_indices),)\n"
+         "        else:\n            up_chunks = None\n",
+         "        up_chunks = (min(1000000, n_up_indices),)\n")],
+       'R-POS/chunk-extent', '_merge_sparse_by_pair_files')
+mutant('C11-F10-single-pair-chunk-rejected', 'C11',
+       'contiguity test rejects a chunk of one pair again (F10)',
+       [(_PM, "    if len(idx_values) > 1 and (len(delta) != 1 or delta[0] != 1):\n",
+         "    if len(delta) != 1 or delta[0] != 1:\n")],
+       'R-IDIOM/contiguity-of-one', '_p_values_worker')
+twin('C11-twin-contiguity-guard-nested', 'C11',
+     'single-item allowance written as an enclosing if',
+     [(_PM, "    if len(idx_values) > 1 and (len(delta) != 1 or delta[0] != 1):\n"
+       "        raise RuntimeError(\n"
+       "            \"p-value worker was passed non-consecutive pairs\")\n",
+       "    if len(idx_values) > 1:\n"
+       "        if len(delta) != 1 or delta[0] != 1:\n"
+       "            raise RuntimeError(\n"
+       "                \"p-value worker was passed non-consecutive pairs\")\n")])
